@@ -47,6 +47,8 @@ type GenCfg struct {
 	BigValues  bool   // occasionally write ~60 KB values so that Flush splits its batch
 	SweepPairs int    // number of (prefix,start) iterations appended at the end
 	KeyHints   []string // byte strings (hex) that keys at lower levels should often start with
+	Reopen     bool     // engine bases: occasionally close and reopen the engine mid-history
+	ECompact   bool     // occasionally forward a Compact to the engine (observing nil / error)
 }
 
 // flushDepths returns the depths (0 = top) of the "f" layers of a header.
@@ -111,6 +113,41 @@ func Gen(r *rand.Rand, c GenCfg) []string {
 	nsnap := 0
 	nlive := 0
 	for i := 0; i < c.NOps; i++ {
+		if c.Reopen && nsnap == 0 && nlive == 0 && r.Intn(40) == 0 {
+			emit("reopen")
+			continue
+		}
+		if c.ECompact && r.Intn(60) == 0 {
+			if r.Intn(2) == 0 {
+				emit("ecompact", handle(), "~", "~")
+			} else {
+				emit("ecompact", handle(), okey(2), okey(2))
+			}
+			continue
+		}
+		if c.Live && r.Intn(20) == 0 {
+			// an iterator created now and drained after reads / flushes / drops only
+			id := strconv.Itoa(2 + r.Intn(2))
+			emit("lit", id, handle(), okey(1), okey(1))
+			if r.Intn(2) == 0 {
+				emit("lnext", id, strconv.Itoa(1+r.Intn(2)))
+			}
+			for j := r.Intn(3); j >= 0; j-- {
+				switch y := r.Intn(4); {
+				case y == 0 && len(fds) > 0:
+					emit("flush", strconv.Itoa(fds[r.Intn(len(fds))]))
+				case y == 1 && len(fds) > 0:
+					emit("drop", strconv.Itoa(fds[r.Intn(len(fds))]))
+				case y == 2:
+					emit("it", handle(), okey(2), okey(2))
+				default:
+					emit("get", handle(), key())
+				}
+			}
+			emit("lnext", id, "100")
+			emit("lrel", id)
+			continue
+		}
 		x := r.Intn(100)
 		switch {
 		case x < 22:
